@@ -169,6 +169,13 @@ def scan_assumptions(unit):
             continue
         origin = unit.origin[i]
         item = (m.group(1).strip(" ("), code.strip()[:140], origin[1])
+        if origin[0] == "import":
+            # (additive) the `external_body` of an imported contract (`//@ import`): not an assumption of this unit - the
+            # contract text is the one the exporting unit proves; listed under its own kind, once per stub
+            item = ("imported-contract", origin[1], "proved in unit %s" % origin[1].rsplit(" ", 1)[-1])
+            if item not in found:
+                found.append(item)
+            continue
         if origin[0] == "repo":
             bad.append(item)
         else:
@@ -230,6 +237,11 @@ def verify_unit(unit_name, scratch, reach=True, mutate=None, seed=None, tag="", 
             key = fn_key_at(unit, prim[0][0]) if prim else None
             if key is None:
                 continue
+            if key in getattr(unit, "imports", {}):
+                # (additive) the error sits in an imported contract: its text does not compile against this unit (a spec
+                # function it mentions is not in scope, or the exporting contract changed shape) - nothing to isolate
+                raise Undecided("imported contract %s (from unit %s) does not pass the front end in unit %s: %s"
+                                % (key, unit.imports[key]["unit"], unit_name, h["message"][:300]))
             if key not in nohints and unit.fn_has_hints.get(key):
                 nohints.add(key)
                 progressed = True
@@ -252,6 +264,7 @@ def verify_unit(unit_name, scratch, reach=True, mutate=None, seed=None, tag="", 
         "unit": unit, "failed": failed, "unattributed": unattr, "verified": vr.get("verified", 0),
         "errors": vr.get("errors", 0), "times": oj.get("times-ms", {}), "cmd": " ".join(cmd), "wall_s": time.time() - t0,
         "file": fname, "stderr": err, "stubbed": dict(unit.stubbed), "isolation": attempts, "rlimit_fns": rl_fns,
+        "imports": dict(getattr(unit, "imports", {})),
     }
     # ---- reach pass: every contracted, non-stubbed function must fail at its REACH line
     if reach:
